@@ -210,6 +210,7 @@ struct OpScope {
   void snapshot(const HOp& op) { static const bool nofill = getenv("SIM_NOFILL") != nullptr; if (!snapped && h.image_check && op.fk != F_NONE && !nofill) { image = sa_snapshot(); snapped = true; } }
   void begin(const HOp& op) {
     FaultSpec f; f.kind = op.fk; f.k = op.fkk; f.seed = op.a * 31 + op.b;
+    if (f.kind == F_QUOTA) f.k = sa_live_bytes() + op.fkk % 2048;      // budget relative to what is live when the op starts
     snapshot(op);
     sa_begin(f);
   }
